@@ -53,11 +53,11 @@ theorem hnTakeover_ghost {s s1 : RState} {spec : ConnectSpec} (ha : AdmInv s) (h
   split at h
   · rename_i old hold
     obtain ⟨c, hc, e⟩ := ha.map.1 _ _ hold
-    rcases handleDisconnection_effect h with ⟨hn, _⟩ | ⟨c', hc', e1, _, _, e4⟩
+    rcases handleDisconnection_effect h with ⟨hn, _⟩ | ⟨c', s0, logs, hc', e1, _, _, e4, hw⟩
     · rw [hc] at hn; simp at hn
     · rw [hc] at hc'; simp only [Option.some.injEq] at hc'; subst hc'
-      refine .inr ⟨old, c, hold, hc, e, by rw [e4, e], ?_⟩
-      rw [e1]; exact Slab.len_remove_live hc
+      refine .inr ⟨old, c, hold, hc, e, by rw [(wakeParked_wakeFrame hw).ghost, e4, e], ?_⟩
+      rw [(wakeParked_shape hw).len, e1]; exact Slab.len_remove_live hc
   · rename_i hnone
     simp only [Except.ok.injEq] at h; subst h
     exact .inl ⟨hnone, rfl⟩
